@@ -369,3 +369,13 @@ def run(ck: Check, repo: Repo) -> None:
     from . import c03
     c03.subset_normalisation(r5, repo)
     ck.analysed_fn("reuse.covered_files.iter_files", "reuse.covered_files.is_path_ignored")
+    # which of the requested files lint-file examines is decided by the same table as for lint (subset cells included)
+    from ..fold import Folder
+    folder = Folder(repo)
+    rl = ck.rule("R6a", "name languages for the decision table (shared with C03-R1; findings are reported under C03)")
+    impl = c03._regex_list(folder, "_IGNORE_MESON_PARENT_DIR_PATTERNS")
+    from ..relang import Alphabet, Lang, union
+    alpha = Alphabet([(x.pattern, x.flags) for x in impl], exclude=c03.EXCLUDE)
+    langs = {"_IGNORE_MESON_PARENT_DIR_PATTERNS": (alpha, union(alpha, [Lang.from_regex(x.pattern, x.flags, alpha, "match") for x in impl]))}
+    rl.instance("meson-parent-language", {"patterns": [x.pattern for x in impl]})
+    c03.rule_decision(ck, repo, langs, "R6")
